@@ -1,0 +1,21 @@
+//go:build verif
+
+package visitor
+
+import (
+	"fmt"
+	"net"
+)
+
+// VerifC08InitTunnel initialises the tunnel session of a running xtcp visitor on listenConn
+// towards raddr, as makeNatHole does after a successful hole punch.
+func VerifC08InitTunnel(v Visitor, listenConn *net.UDPConn, raddr *net.UDPAddr) error {
+	sv, ok := v.(*XTCPVisitor)
+	if !ok {
+		return fmt.Errorf("not an xtcp visitor")
+	}
+	if sv.session == nil {
+		return fmt.Errorf("visitor is not running")
+	}
+	return sv.session.Init(listenConn, raddr)
+}
